@@ -19,6 +19,7 @@ mod powertrain;
 mod ksp;
 mod output;
 mod state;
+mod appsearch;
 
 fn main() {
     // panics of the code under test are recorded as events by util::guarded; keep stderr quiet
@@ -49,6 +50,7 @@ fn main() {
         "ksp" => ksp::main(rest),
         "output" => output::main(rest),
         "state" => state::main(rest),
+        "appsearch" => appsearch::main(rest),
         "ksp-child" => ksp::child(&rest[0]),
         "robust-child" => robust::child(&rest[0]),
         other => {
